@@ -227,6 +227,9 @@ pub fn run(run: Run) -> ! {
             objects.push(vec![TlSpec { kfs: k.clone(), default_easing: if si % 2 == 0 { 0 } else { 3 }, timing: *th }]);
         }
     }
+    // two timelines with many keyframes (17 and 33): scrubbing jumps over several keyframes at once
+    objects.push(vec![crate::common::wide_spec(4, 1, thetas[1])]);
+    objects.push(vec![crate::common::wide_spec(5, 1, thetas[4])]);
     let n_single = objects.len();
     let pairs = [(0usize, 1usize), (1, 4), (3, 2), (4, 1), (5, 3), (1, 3)];
     for (pi, &(t1, t2)) in pairs.iter().enumerate() {
@@ -279,7 +282,7 @@ pub fn run(run: Run) -> ! {
     cov.insert("traces_validated_against_impl".into(), json!(acc.sequences));
     cov.insert("evaluations".into(), json!(acc.updates));
     cov.insert("distinct_nontrivial".into(), json!(acc.sequences));
-    cov.insert("rule".into(), json!(format!("{} plain timelines ({} keyframe lists from T(2),T(3) x 6 timings) and {} merged timelines (two components with different delays/timings); objects X and Y (clone slot); alphabet of {} operations: update(obj, target in {{fresh sentinel, dirty, previous result}}, 6 times spanning before-start (negative zero when there is no delay) / between the component delays / first pass / second pass-or-after-end / exactly on the 50% keyframe position / far), start_with(obj, 3 values), Y=X.clone(), X=Y.clone(), Y.clone_from(&X), X.clone_from(&Y); ALL sequences of length {} (stateless DFS, state = history); oracle: every update equals the memo entry (latest start value of that object, time) computed on a pristine twin into a fresh target, untouched fields keep the input's bits; delay/cycle/duration/repeat never change; non-trivial = complete sequences", n_single, kfss.len(), objects.len() - n_single, ops.len(), depth)));
+    cov.insert("rule".into(), json!(format!("{} plain timelines ({} keyframe lists from T(2),T(3) x 6 timings) 2 timelines with 17 / 33 keyframes, and {} merged timelines (two components with different delays/timings); objects X and Y (clone slot); alphabet of {} operations: update(obj, target in {{fresh sentinel, dirty, previous result}}, 6 times spanning before-start (negative zero when there is no delay) / between the component delays / first pass / second pass-or-after-end / exactly on the 50% keyframe position / far), start_with(obj, 3 values), Y=X.clone(), X=Y.clone(), Y.clone_from(&X), X.clone_from(&Y); ALL sequences of length {} (stateless DFS, state = history); oracle: every update equals the memo entry (latest start value of that object, time) computed on a pristine twin into a fresh target, untouched fields keep the input's bits; delay/cycle/duration/repeat never change; non-trivial = complete sequences", n_single, kfss.len(), objects.len() - n_single, ops.len(), depth)));
     cov.insert("exhaustive".into(), json!(true));
     cov.insert("depth".into(), json!(depth));
     cov.insert("distinct_update_results_capped".into(), json!(acc.distinct_results.len()));
